@@ -1,0 +1,383 @@
+//! Child module of `dns_parser`: plain-data facade over the wire codec (verification only).
+//!
+//! Every function here only calls existing codec entry points and converts to/from plain data.
+use super::*;
+use std::net::{Ipv4Addr, Ipv6Addr};
+
+pub fn hex(b: &[u8]) -> String {
+    let mut s = String::with_capacity(b.len() * 2);
+    for x in b {
+        s.push_str(&format!("{x:02x}"));
+    }
+    s
+}
+
+/// RDATA as plain data. Names are the crate's dotted strings.
+#[derive(Clone, Debug, PartialEq, Eq)]
+pub enum RData {
+    A(Ipv4Addr),
+    Aaaa(Ipv6Addr),
+    /// PTR or CNAME (the crate decodes both into the same struct).
+    Ptr(String),
+    Srv {
+        priority: u16,
+        weight: u16,
+        port: u16,
+        host: String,
+    },
+    Txt(Vec<u8>),
+    Nsec {
+        next: String,
+        bitmap: Vec<u8>,
+    },
+    HInfo {
+        cpu: String,
+        os: String,
+    },
+}
+
+/// One resource record as plain data.
+#[derive(Clone, Debug, PartialEq, Eq)]
+pub struct Rec {
+    pub name: String,
+    /// Numeric RR type.
+    pub ty: u16,
+    /// Class without the cache-flush bit.
+    pub class: u16,
+    pub flush: bool,
+    pub ttl: u32,
+    pub rdata: RData,
+}
+
+#[derive(Clone, Debug, PartialEq, Eq)]
+pub struct Question {
+    pub name: String,
+    pub ty: u16,
+    pub class: u16,
+    pub flush: bool,
+}
+
+/// A decoded message as plain data.
+#[derive(Clone, Debug, Default, PartialEq, Eq)]
+pub struct Msg {
+    pub id: u16,
+    pub flags: u16,
+    pub counts: [u16; 4],
+    pub questions: Vec<Question>,
+    pub answers: Vec<Rec>,
+    pub authorities: Vec<Rec>,
+    pub additionals: Vec<Rec>,
+}
+
+impl Rec {
+    pub fn new(name: &str, class_raw: u16, ttl: u32, rdata: RData) -> Self {
+        let ty = match &rdata {
+            RData::A(_) => RRType::A,
+            RData::Aaaa(_) => RRType::AAAA,
+            RData::Ptr(_) => RRType::PTR,
+            RData::Srv { .. } => RRType::SRV,
+            RData::Txt(_) => RRType::TXT,
+            RData::Nsec { .. } => RRType::NSEC,
+            RData::HInfo { .. } => RRType::HINFO,
+        } as u16;
+        Self {
+            name: name.to_string(),
+            ty,
+            class: class_raw & CLASS_MASK,
+            flush: class_raw & CLASS_CACHE_FLUSH != 0,
+            ttl,
+            rdata,
+        }
+    }
+
+    fn class_raw(&self) -> u16 {
+        self.class | if self.flush { CLASS_CACHE_FLUSH } else { 0 }
+    }
+
+    /// Builds the crate's record object with the crate's own constructors.
+    pub(crate) fn to_box(&self) -> DnsRecordBox {
+        let c = self.class_raw();
+        match &self.rdata {
+            RData::A(a) => DnsAddress::new(
+                &self.name,
+                RRType::A,
+                c,
+                self.ttl,
+                (*a).into(),
+                InterfaceId::default(),
+            )
+            .boxed(),
+            RData::Aaaa(a) => DnsAddress::new(
+                &self.name,
+                RRType::AAAA,
+                c,
+                self.ttl,
+                (*a).into(),
+                InterfaceId::default(),
+            )
+            .boxed(),
+            RData::Ptr(alias) => {
+                let ty = RRType::from_u16(self.ty).unwrap_or(RRType::PTR);
+                DnsPointer::new(&self.name, ty, c, self.ttl, alias.clone()).boxed()
+            }
+            RData::Srv {
+                priority,
+                weight,
+                port,
+                host,
+            } => DnsSrv::new(
+                &self.name,
+                c,
+                self.ttl,
+                *priority,
+                *weight,
+                *port,
+                host.clone(),
+            )
+            .boxed(),
+            RData::Txt(t) => DnsTxt::new(&self.name, c, self.ttl, t.clone()).boxed(),
+            RData::Nsec { next, bitmap } => {
+                DnsNSec::new(&self.name, c, self.ttl, next.clone(), bitmap.clone()).boxed()
+            }
+            RData::HInfo { cpu, os } => DnsHostInfo::new(
+                &self.name,
+                RRType::HINFO,
+                c,
+                self.ttl,
+                cpu.clone(),
+                os.clone(),
+            )
+            .boxed(),
+        }
+    }
+
+    pub(crate) fn from_box(r: &dyn DnsRecordExt) -> Option<Rec> {
+        let any = r.any();
+        let rdata = if let Some(a) = any.downcast_ref::<DnsAddress>() {
+            match a.address {
+                IpAddr::V4(v) => RData::A(v),
+                IpAddr::V6(v) => RData::Aaaa(v),
+            }
+        } else if let Some(p) = any.downcast_ref::<DnsPointer>() {
+            RData::Ptr(p.alias.clone())
+        } else if let Some(s) = any.downcast_ref::<DnsSrv>() {
+            RData::Srv {
+                priority: s.priority,
+                weight: s.weight,
+                port: s.port,
+                host: s.host.clone(),
+            }
+        } else if let Some(t) = any.downcast_ref::<DnsTxt>() {
+            RData::Txt(t.text.clone())
+        } else if let Some(n) = any.downcast_ref::<DnsNSec>() {
+            RData::Nsec {
+                next: n.next_domain.clone(),
+                bitmap: n.type_bitmap.clone(),
+            }
+        } else if let Some(h) = any.downcast_ref::<DnsHostInfo>() {
+            RData::HInfo {
+                cpu: h.cpu.clone(),
+                os: h.os.clone(),
+            }
+        } else {
+            return None;
+        };
+        let rec = r.get_record();
+        Some(Rec {
+            name: rec.get_name().to_string(),
+            ty: rec.entry.ty as u16,
+            class: rec.entry.class,
+            flush: rec.entry.cache_flush,
+            ttl: rec.ttl,
+            rdata,
+        })
+    }
+}
+
+/// Decodes a datagram with the crate's decoder (`DnsIncoming::new`).
+pub fn decode(data: &[u8]) -> Result<Msg> {
+    let msg = DnsIncoming::new(data.to_vec(), InterfaceId::default())?;
+    let conv = |v: &[DnsRecordBox]| -> Vec<Rec> {
+        v.iter()
+            .filter_map(|r| Rec::from_box(r.as_ref()))
+            .collect()
+    };
+    Ok(Msg {
+        id: msg.id,
+        flags: msg.flags,
+        counts: [
+            msg.num_questions,
+            msg.num_answers,
+            msg.num_authorities,
+            msg.num_additionals,
+        ],
+        questions: msg
+            .questions
+            .iter()
+            .map(|q| Question {
+                name: q.entry.name.clone(),
+                ty: q.entry.ty as u16,
+                class: q.entry.class,
+                flush: q.entry.cache_flush,
+            })
+            .collect(),
+        answers: conv(&msg.answers),
+        authorities: conv(&msg.authorities),
+        additionals: conv(&msg.additional),
+    })
+}
+
+/// An outgoing message under construction (`DnsOutgoing`).
+pub struct Out {
+    out: DnsOutgoing,
+}
+
+impl Out {
+    pub fn new(flags: u16) -> Self {
+        Self {
+            out: DnsOutgoing::new(flags),
+        }
+    }
+    pub fn set_id(&mut self, id: u16) {
+        self.out.set_id(id);
+    }
+    /// Returns false if the crate has no such question type.
+    pub fn add_question(&mut self, name: &str, ty: u16) -> bool {
+        match RRType::from_u16(ty) {
+            Some(t) => {
+                self.out.add_question(name, t);
+                true
+            }
+            None => false,
+        }
+    }
+    pub fn add_answer(&mut self, r: &Rec) {
+        self.out.add_answer_box(r.to_box());
+    }
+    pub fn add_authority(&mut self, r: &Rec) {
+        self.out.add_authority(r.to_box());
+    }
+    pub fn add_additional(&mut self, r: &Rec) {
+        // `add_additional_answer` only boxes and pushes; do the same through the public field.
+        self.out.additionals.push(r.to_box());
+    }
+    pub fn clear_cache_flush_bits(&mut self) {
+        self.out.clear_cache_flush_bits();
+    }
+    pub fn to_packets(&self) -> Vec<Vec<u8>> {
+        self.out.to_data_on_wire()
+    }
+}
+
+/// `DnsRecordExt::suppressed_by_answer` on two plain records (`mine` is the responder's).
+pub fn suppressed_by_answer(mine: &Rec, known: &Rec) -> bool {
+    mine.to_box().suppressed_by_answer(known.to_box().as_ref())
+}
+
+/// `DnsRecordExt::compare` on two plain records.
+pub fn compare(a: &Rec, b: &Rec) -> std::cmp::Ordering {
+    a.to_box().compare(b.to_box().as_ref())
+}
+
+/// TXT RDATA the crate generates for a `ServiceInfo`.
+pub fn txt_of(info: &ServiceInfo) -> Vec<u8> {
+    info.generate_txt()
+}
+
+pub const MAX_PACKET: usize = MAX_MSG_ABSOLUTE;
+
+/// Record lifetime arithmetic (`DnsRecord`) under the thread clock override.
+pub mod life {
+    use super::super::{DnsRecord, RRType, CLASS_IN};
+
+    pub struct Life {
+        rec: DnsRecord,
+    }
+
+    impl Life {
+        /// A record created "now" (the thread clock) with `ttl` seconds.
+        pub fn new(ttl: u32) -> Self {
+            Self {
+                rec: DnsRecord::new("x.local.", RRType::A, CLASS_IN, ttl),
+            }
+        }
+        pub fn created(&self) -> u64 {
+            self.rec.get_created()
+        }
+        pub fn ttl(&self) -> u32 {
+            self.rec.get_ttl()
+        }
+        pub fn expire_time(&self) -> u64 {
+            self.rec.get_expire_time()
+        }
+        pub fn refresh_time(&self) -> u64 {
+            self.rec.get_refresh_time()
+        }
+        pub fn is_expired(&self, now: u64) -> bool {
+            self.rec.is_expired(now)
+        }
+        pub fn expires_soon(&self, now: u64) -> bool {
+            self.rec.expires_soon(now)
+        }
+        pub fn refresh_due(&self, now: u64) -> bool {
+            self.rec.refresh_due(now)
+        }
+        pub fn halflife_passed(&self, now: u64) -> bool {
+            self.rec.halflife_passed(now)
+        }
+        pub fn refresh_maybe(&mut self, now: u64) -> bool {
+            self.rec.refresh_maybe(now)
+        }
+        pub fn refresh_no_more(&mut self) {
+            self.rec.refresh_no_more()
+        }
+        pub fn reset_ttl(&mut self, other: &Life) {
+            self.rec.reset_ttl(&other.rec)
+        }
+        pub fn set_expire(&mut self, at: u64) {
+            self.rec.set_expire(at)
+        }
+        pub fn remaining_ttl(&self, now: u64) -> u32 {
+            self.rec.get_remaining_ttl(now)
+        }
+        /// `update_ttl` then the resulting TTL field (what a known answer would carry).
+        pub fn updated_ttl(&self, now: u64) -> u32 {
+            let mut r = self.rec.clone();
+            r.update_ttl(now);
+            r.get_ttl()
+        }
+    }
+}
+
+impl DnsRecord {
+    pub(crate) fn verif_dump(&self, now: u64) -> String {
+        format!(
+            "{}{} ty={} cl={} fl={} ttl={} cr={} ex={} rf={}",
+            self.entry.name,
+            match &self.new_name {
+                Some(n) => format!("->{n}"),
+                None => String::new(),
+            },
+            self.entry.ty as u16,
+            self.entry.class,
+            self.entry.cache_flush,
+            self.ttl,
+            self.created as i128 - now as i128,
+            self.expires as i128 - now as i128,
+            self.refresh as i128 - now as i128,
+        )
+    }
+}
+
+/// Canonical text of one record (header fields, times relative to `now`, RDATA).
+pub(crate) fn dump_record(r: &dyn DnsRecordExt, now: u64) -> String {
+    let extra = match r.any().downcast_ref::<DnsAddress>() {
+        Some(a) => format!(" if={}:{}", a.interface_id.index, a.interface_id.name),
+        None => String::new(),
+    };
+    let rdata = match Rec::from_box(r) {
+        Some(rec) => format!("{:?}", rec.rdata),
+        None => r.rdata_print(),
+    };
+    format!("{} rd={}{}", r.get_record().verif_dump(now), rdata, extra)
+}
